@@ -28,7 +28,7 @@ ASSUMPTIONS = [
     'S1 node formatting, S3 composer; marks: every node gets its own '
     'concrete line (replay: the marks of the real parser)',
     'strong claim on hierarchy-free models (plain, coll, when, styled, '
-    'picky, top_dict, uni): one corruption of a valid base document -- '
+    'picky, top_dict, uni, req4): one corruption of a valid base document -- '
     'wrong scalar type at any scalar value, misspelt key, dropped required '
     'key, added key, unknown enum member -- must raise RecognitionError '
     'whose cited lines are all inside the document and include the line of '
@@ -40,7 +40,8 @@ ASSUMPTIONS = [
     'document\'s null value sits at the end-of-stream position)',
 ]
 
-STRONG = ['plain', 'coll', 'when', 'styled', 'picky', 'top_dict', 'uni']
+STRONG = ['plain', 'coll', 'when', 'styled', 'picky', 'top_dict', 'uni',
+          'req4']
 WEAK = ['shapes']
 _CASES = [(MODEL_IDX[n], 0) for n in STRONG + WEAK]
 _CLASS_KEYS = {}
@@ -141,6 +142,7 @@ def _corrupt(mi, bi, site, kind):
         path = _path(b, site)
     else:
         return None
+    docs.layout(b.root)
     return b, path, quoted
 
 
@@ -157,7 +159,7 @@ def _run(case, site, kind):
         tree = b.root
         _TREE[0] = tree
         arg = ''
-        nlines = b.lc.n + 1
+        nlines = max(n.start_mark.line for n in b.nodes) + 2
     else:
         arg = tree_to_text(b.root, load.loader)
         ldr = load.loader(arg)
@@ -207,7 +209,7 @@ def _run(case, site, kind):
 
 def corrupted(case: int, site: int, kind: int) -> bool:
     """
-    pre: 0 <= case < 8 and 0 <= site < 28 and 0 <= kind < 5
+    pre: 0 <= case < 9 and 0 <= site < 28 and 0 <= kind < 5
     post: __return__
     """
     s = slice_no(-1)
@@ -219,7 +221,7 @@ def corrupted(case: int, site: int, kind: int) -> bool:
 
 def corrupted_reach(case: int, site: int, kind: int) -> bool:
     """
-    pre: 0 <= case < 8 and 0 <= site < 28 and 0 <= kind < 5
+    pre: 0 <= case < 9 and 0 <= site < 28 and 0 <= kind < 5
     post: __return__
     """
     r = _run(case, site, kind)
@@ -227,9 +229,9 @@ def corrupted_reach(case: int, site: int, kind: int) -> bool:
 
 
 CONDITIONS = [
-    {'fn': 'corrupted', 'slices': list(range(8)), 'quick': 110,
+    {'fn': 'corrupted', 'slices': list(range(9)), 'quick': 110,
      'thorough': 300,
-     'bound': 'one slice per model (7 hierarchy-free, 1 hierarchy): every '
+     'bound': 'one slice per model (8 hierarchy-free, 1 hierarchy): every '
               'node of the valid base document x 5 corruption kinds (wrong '
               'scalar type, misspelt key, dropped required key, added key, '
               'unknown enum member)'},
